@@ -36,3 +36,12 @@ pub fn block_popcount_avx2(block: &[u64]) -> Option<usize> {
         None
     }
 }
+
+// ---- C13: UTF-8 validation engines
+pub use crate::text::utf8::{verif_broadword_accepts, verif_line_and_column, verif_skip_ascii};
+
+/// Raw AVX2 UTF-8 accept kernel; `None` when AVX2 is unavailable.
+#[cfg(all(target_arch = "x86_64", feature = "std"))]
+pub fn validate_utf8_avx2(input: &[u8]) -> Option<bool> {
+    crate::text::utf8::verif_validate_utf8_avx2(input)
+}
